@@ -149,3 +149,31 @@ Theorem C20_claim_refuses_excess_fee : forall asset genesis cs proof bv fee_of i
   claim asset genesis cs proof bv fee_of = PgErr.
 Proof. exact claim_refuses_excess_fee. Qed.
 Print Assumptions C20_claim_refuses_excess_fee.
+
+(* one MerkleBlock object over time (fields edited in place between calls of ExtractMatches): with FBad
+   clear, a call returns what a freshly decoded proof with the present count / hashes / flag bits returns *)
+From GE Require Import Model.MerkleHist Proofs.MerkleHist.
+Theorem C20_history_verdict_is_fresh_verdict : forall o o' res,
+  h_bad o = false -> hstep o HExtract = Some (o', Some res) ->
+  res = extract bytes node_hash bytes_eqb (h_count o) (h_hashes o) (h_bits o).
+Proof. exact history_verdict_is_fresh_verdict. Qed.
+Print Assumptions C20_history_verdict_is_fresh_verdict.
+
+Theorem C20_history_success_keeps_fresh : forall o o' r,
+  hstep o HExtract = Some (o', Some (Some r)) -> h_bad o' = false.
+Proof. exact history_success_keeps_fresh. Qed.
+Print Assumptions C20_history_success_keeps_fresh.
+
+(* ... but FBad is never cleared: an object that once saw a bad proof refuses everything afterwards,
+   the genuine proof it is edited back to included (refutes "fresh verdict for every history") *)
+Theorem C20_history_sticky_fbad : forall (A : Type) (H : A -> A -> A) (eqA : A -> A -> bool) n hashes bits,
+  extract_hist A H eqA true n hashes bits = (None, true).
+Proof. exact extract_hist_sticky. Qed.
+Print Assumptions C20_history_sticky_fbad.
+
+Theorem C20_history_sticky_fbad_refuted :
+  exists n hashes bits r,
+    extract term Hn term_eqb n hashes bits = Some r /\
+    fst (extract_hist term Hn term_eqb true n hashes bits) = None.
+Proof. exact history_sticky_fbad_refuted. Qed.
+Print Assumptions C20_history_sticky_fbad_refuted.
